@@ -196,6 +196,10 @@ def parseDst : String → Option (Bool × Bool × Bool)
   | "b" => some (true, true, false)
   | "o" => some (false, false, true)
   | "f" => some (false, false, false)
+  | "z" => some (false, true, false)    -- individual 0.0.0, interface elsewhere
+  | "G" => some (true, false, false)    -- group address with the raw value of the own address
+  | "Z" => some (false, true, true)     -- individual 0.0.0, interface at its default 0.0.0
+  | "Y" => some (false, false, false)   -- foreign individual, interface at 0.0.0
   | _ => none
 
 def parseTok (tok : String) : Option Tok :=
@@ -216,7 +220,7 @@ def parseTok (tok : String) : Option Tok :=
   | _ => none
 
 -- DRIVER: c14 => XknxVerif.CEMIHandler.handle
-/-- `route <code> <g|b|o|f> <tpdu0> <p|s|n>` → outcome string;
+/-- `route <code> <g|b|o|f|z|G|Z|Y> <tpdu0> <p|s|n>` → outcome string;
 `monitor <token>…` → `accept` | `reject <index> <token>` -/
 def handle : List String → String
   | ["route", c, d, tp, p] =>
